@@ -280,8 +280,9 @@ type Client struct {
 	// failed (re)connect attempt
 	writeSem chan net.Conn
 
-	// The semaphore allows for one ping request at a time.
-	pingAck chan chan<- error
+	// The slot allows for one ping request at a time. Whoever swaps the
+	// callback out owns it, and must signal on it.
+	pingAck atomic.Pointer[chan error]
 
 	atLeastOnce, exactlyOnce outbound
 
@@ -353,7 +354,6 @@ func newClient(p Persistence, config *Config) *Client {
 		offlineSig:  make(chan chan struct{}, 1),
 		connSem:     make(chan net.Conn, 1),
 		writeSem:    make(chan net.Conn, 1),
-		pingAck:     make(chan chan<- error, 1),
 		atLeastOnce: outbound{
 			seqSem: make(chan seq, 1), // must singleton
 			queue:  make(chan chan<- error, config.AtLeastOnceMax),
@@ -524,11 +524,8 @@ func (c *Client) termCallbacks() {
 		}
 	}()
 
-	select {
-	case ack := <-c.pingAck:
-		ack <- fmt.Errorf("%w; PING not confirmed", ErrBreak)
-	default:
-		break
+	if ack := c.pingAck.Swap(nil); ack != nil {
+		*ack <- fmt.Errorf("%w; PING not confirmed", ErrBreak)
 	}
 	wg.Wait()
 
@@ -594,11 +591,8 @@ func (c *Client) toOffline() {
 	c.dropReadConn()
 	verifYield("offline.break")
 
-	select {
-	case ack := <-c.pingAck:
-		ack <- ErrBreak
-	default:
-		break
+	if ack := c.pingAck.Swap(nil); ack != nil {
+		*ack <- ErrBreak
 	}
 
 	c.unorderedTxs.breakAll()
